@@ -309,6 +309,22 @@ def handleC08 (cmd : String) (args : List Sexp) : Option Sexp :=
       let ix ← ixsOf? ix
       let L2 : Lazy2 Int := ⟨(List.range nout).map fun j => mkOperand bs nin sdin feats j, sdout⟩
       pure (res2ToSexp (lazyGet2 L2 ix))
+  -- (c08.set2 (bs ..) n_in n_out sd_in sd_out (feats ..) (ix ..)) : the dense stack of stacks after `lazy_of_lazy[ix] = value`
+  | "c08.set2", [bs, nin, nout, sdin, sdout, feats, ix] => do
+      let bs ← shapeOf? bs
+      let nin ← asNat? nin
+      let nout ← asNat? nout
+      let sdin ← asNat? sdin
+      let sdout ← asNat? sdout
+      let feats ← featsOf? feats
+      let ix ← ixsOf? ix
+      let L2 : Lazy2 Int := ⟨(List.range nout).map fun j => mkOperand bs nin sdin feats j, sdout⟩
+      match (convertEllipsis ix L2.batch.length).bind fun ix' => idxShape ix' L2.batch with
+      | none => pure (tagged "err" [])
+      | some ibs =>
+        match lazySet2 L2 ix (mkValue ibs feats) with
+        | none => pure (tagged "err" [])
+        | some R => pure (tagged "ok" (tagged "sds" (ofNat R.sd :: R.members.map fun Li => ofNat Li.sd) :: tdToSexp (abs2 R)))
   -- (c08.shape2 (bs ..) n_in n_out sd_in sd_out (feats ..) (unsqueeze d) | (permute d ..) | (transpose a b)) : shape op on a stack of stacks
   | "c08.shape2", [bs, nin, nout, sdin, sdout, feats, .list (.atom op :: args)] => do
       let bs ← shapeOf? bs
